@@ -17,6 +17,7 @@ import (
 type xl struct {
 	g    *fact.Gen
 	vars map[string]string
+	rel  string // file in which identifiers are looked up as package level constants
 }
 
 func (x xl) num(e ast.Expr) (string, bool) {
@@ -39,9 +40,26 @@ func (x xl) num(e ast.Expr) (string, bool) {
 			}
 		}
 		return "", false
+	case *ast.CallExpr:
+		// min(a, b) / max(a, b)
+		if id, ok := v.Fun.(*ast.Ident); ok && (id.Name == "min" || id.Name == "max") && len(v.Args) == 2 {
+			a, ok1 := x.num(v.Args[0])
+			b, ok2 := x.num(v.Args[1])
+			if ok1 && ok2 {
+				return "(" + id.Name + " " + a + " " + b + ")", true
+			}
+		}
 	}
 	if name, ok := x.vars[x.g.Src(e)]; ok {
 		return name, true
+	}
+	// a package level integer constant
+	if id, ok := e.(*ast.Ident); ok && x.rel != "" {
+		if v := x.g.TopLevelValue(x.rel, id.Name); v != nil {
+			if _, isID := v.(*ast.Ident); !isID {
+				return x.num(v)
+			}
+		}
 	}
 	return "", false
 }
@@ -79,7 +97,7 @@ func (x xl) boolean(e ast.Expr) (string, bool) {
 func emitExpr(g *fact.Gen, name, doc, params string, vars map[string]string, e ast.Expr, why string, pinned string) {
 	body, ok := "", false
 	if e != nil {
-		body, ok = xl{g, vars}.boolean(e)
+		body, ok = xl{g, vars, "par/work.go"}.boolean(e)
 		if !ok {
 			why = "unrecognised expression shape: " + g.Pretty(e)
 		}
@@ -96,7 +114,7 @@ func emitExpr(g *fact.Gen, name, doc, params string, vars map[string]string, e a
 func emitNumExpr(g *fact.Gen, name, doc, params string, vars map[string]string, e ast.Expr, why string, pinned string) {
 	body, ok := "", false
 	if e != nil {
-		body, ok = xl{g, vars}.num(e)
+		body, ok = xl{g, vars, "par/work.go"}.num(e)
 		if !ok {
 			why = "unrecognised expression shape: " + g.Pretty(e)
 		}
